@@ -271,3 +271,22 @@ META['C18'] = dict(
     technique='runtime fault injection: enumerated lease-file damage (every crash prefix, byte substitutions, line and structured faults) fed to the real loader in killable workers; restart probes on virtual time',
     level_text='Fault enumeration: every crash point of the non-atomic rewrite (every prefix) and the listed substitution / line / structured faults of lease files produced by real DHCP histories are loaded by the real constructor; plus restart probes (renewals, new client) after ~1.5*10^3 (quick) / 6*10^4 (thorough) histories.',
     level_note='Bindings are observed through the file the handler rewrites at construction and through probe replies; the fault model is single faults on files as written by the handler.')
+
+PROPS['C13'] = dict(
+    runs=[run('race', race=True)], shards=16, watchdog=True, level='exploration',
+    rule=('histories of StartHunt/StopHunt/Close over three targets and two bystanders at PRNG-chosen virtual instants (delays 0, 1 ns, 100 ms, 1 s, one cycle -1 ns / exactly / +1 ns, 7 s, 13 s) '
+          'interleaved with received ARP requests for the router and for other addresses, probes (with and without a different outstanding DHCP offer, probed address on and off the home LAN), '
+          'announcements and replies from hunted and non-hunted hosts; the real arp_spoofer handler with its real 6 s tickers runs in a synctest bubble under the race detector. Oracle: the call log '
+          '(with frame-sequence watermarks) joined with the frames on the recorder, classified by refdec: forged frames only to MACs hunted at that point, one forged frame per cycle per hunted MAC, '
+          'exactly one immediate reply to a hunted requester of the router and none otherwise, probe-reject iff different offer and on-LAN address, a packet restoring the router\'s real MAC within '
+          'one cycle of StopHunt and nothing forged afterwards, a single loop per MAC, nothing after Close. Non-trivial = a history with forged frames and a corrective packet; distinct = '
+          '(forged count bucket, corrective count, replies seen, rejects seen)'),
+    assumptions=['synctest virtual time; the harness waits for quiescence before every call so "in the hunt list at that time" is exact',
+                 'a StartHunt less than one cycle after a StopHunt of the same MAC legitimately leaves the old loop alive: cycle / corrective / single-loop rules are not applied to such intervals'],
+    min_obs={'quick': {'forged_frames': 2000, 'corrective_packets': 300, 'immediate_replies': 100, 'probe_rejects': 30, 'spoof_cycles': 2000}, 'thorough': {'forged_frames': 2000}},
+    timeout={'quick': 1200, 'thorough': 6*3600},
+)
+META['C13'] = dict(
+    technique='runtime trace monitoring under the race detector: call log joined with recorded ARP frames on virtual time (synctest), real spoof loops and tickers',
+    level_text='Exploration: 600 (quick) / 3*10^4 (thorough) hunt histories; every ARP frame the handler emits is classified by the reference decoder and checked against the hunt list at its sequence point, the 6 s cycle, the corrective packet bound and the reply rules; built with -race.',
+    level_note='Bounded liveness only (one cycle on the virtual clock). Trusted base: refdec ARP decoding and the quiescent stepping of the bubble.')
